@@ -1,0 +1,70 @@
+//go:build verif
+
+// Contracts for contract-based deductive verification (checked by /verif/govc).
+// This file is comment-only and compiled only with the build tag "verif".
+
+package agent
+
+// Ghost state: what has been handed to the plugin through notifyFn.
+//@ ghost notified metav1.Object
+//@ ghost notifyCount int
+
+// Configuration objects are immutable snapshots delivered by the watches.
+//@ pure uidOf(o metav1.Object) string
+//@ pure genOf(o metav1.Object) int64
+//@ pure validates(o metav1.Object) bool
+//@ pure validCfg(o metav1.Object) bool = !implements(o, cfgapi.Validator) || validates(o)
+//@ pure sameVersion(c1 metav1.Object, c2 metav1.Object) bool =
+//@    (c1 == nil && c2 == nil) || (c1 != nil && c2 != nil && uidOf(c1) == uidOf(c2) && genOf(c1) == genOf(c2) && genOf(c1) != 0)
+//@ pure eff(a *Agent) metav1.Object = a.nodeCfg != nil ? a.nodeCfg : a.groupCfg
+//@ pure agentInv(a *Agent) bool = eff(a) != nil && validCfg(eff(a)) ==> notified == eff(a)
+
+//@ iface k8s.io/apimachinery/pkg/apis/meta/v1.Object.GetUID
+//@   ensures string(result) == uidOf(self)
+//@ iface k8s.io/apimachinery/pkg/apis/meta/v1.Object.GetGeneration
+//@   ensures result == genOf(self)
+//@ iface github.com/containers/nri-plugins/pkg/apis/config/v1alpha1.Validator.Validate
+//@   ensures (result == nil) <==> validates(self)
+
+// The plugin's notification callback: records what it was given.
+//@ functype NotifyFn
+//@   modifies notified, notifyCount
+//@   ensures notified == arg0 && notifyCount == old(notifyCount) + 1
+
+// Not verified (REST/client plumbing); assumed not to touch the configuration fields (T6).
+//@ assume-contract (*Agent).patchConfigStatus
+//@   modifies nothing
+//@ assume-contract (*Agent).configure
+//@   modifies a.nrtCli, a.podResCli
+
+//@ func sameConfigVersion
+//@   ensures[C17] result == sameVersion(cfg1, cfg2)
+
+//@ func (*Agent).updateConfig
+//@   requires a != nil && a.notifyFn != nil
+//@   modifies a.currentCfg, a.nrtCli, a.podResCli, notified, notifyCount
+//@   ensures[C17] cfg == nil || !validCfg(cfg) ==> notifyCount == old(notifyCount) && notified == old(notified)
+//@   ensures[C17] cfg != nil && validCfg(cfg) ==> notifyCount == old(notifyCount) + 1 && notified == cfg
+
+//@ func (*Agent).updateNodeConfig
+//@   requires a != nil && a.notifyFn != nil && agentInv(a)
+//@   modifies a.nodeCfg, a.currentCfg, a.nrtCli, a.podResCli, notified, notifyCount
+//@   let isMeta = obj == nil || implements(obj, metav1.Object)
+//@   let dup = sameVersion(obj, old(a.nodeCfg))
+//@   ensures[C17] !isMeta || dup ==> a.nodeCfg == old(a.nodeCfg) && notifyCount == old(notifyCount) && notified == old(notified)
+//@   ensures[C17] isMeta && !dup ==> a.nodeCfg == obj
+//@   ensures[C17] isMeta && !dup && eff(a) != nil && validCfg(eff(a)) ==> notified == eff(a) && notifyCount == old(notifyCount) + 1
+//@   ensures[C17] isMeta && !dup && (eff(a) == nil || !validCfg(eff(a))) ==> notifyCount == old(notifyCount)
+//@   ensures[C17] agentInv(a)
+
+//@ func (*Agent).updateGroupConfig
+//@   requires a != nil && a.notifyFn != nil && agentInv(a)
+//@   modifies a.groupCfg, a.currentCfg, a.nrtCli, a.podResCli, notified, notifyCount
+//@   let isMeta = obj == nil || implements(obj, metav1.Object)
+//@   let dup = sameVersion(obj, old(a.groupCfg))
+//@   ensures[C17] !isMeta || dup ==> a.groupCfg == old(a.groupCfg) && notifyCount == old(notifyCount) && notified == old(notified)
+//@   ensures[C17] isMeta && !dup ==> a.groupCfg == obj
+//@   ensures[C17] old(a.nodeCfg) != nil ==> notifyCount == old(notifyCount) && notified == old(notified)
+//@   ensures[C17] isMeta && !dup && old(a.nodeCfg) == nil && obj != nil && validCfg(obj) ==> notified == obj && notifyCount == old(notifyCount) + 1
+//@   ensures[C17] isMeta && !dup && (obj == nil || !validCfg(obj)) ==> notifyCount == old(notifyCount)
+//@   ensures[C17] agentInv(a)
